@@ -79,6 +79,32 @@ def run(ck, F):
         if d.endswith("clone_from") or "extend" in d:
             ck.ok("R2", "whole-field-copy", B.term(cbb).get("sp"), "base members are cloned as whole Field values (Vec<Field> clone)", fn="extension")
     ck.floor("R1", "append sites of own members", len(appends), 1)
+    # whenever an <extension> child was found, the base is looked up: no successful return leaves the extension arm before the lookup
+    look_bbs = {bb for bb, t in B.calls() if ((M.Body.callee(t) or "") in {p_ for p_, _a, _b in A.component_lookups(F)}
+                                             or (M.Body.callee_decl(t) or "") in {p_ for p_, _a, _b in A.component_lookups(F)})}
+    arms = []
+    for i in sorted(B.reach):
+        t = B.term(i)
+        if t.get("k") != "switch" or t["discr"].get("k") not in ("copy", "move"):
+            continue
+        for o in M.trace(B, t["discr"], ()):
+            if o.kind == "discr" and not o.place.get("proj") and B.local_ty(o.place["l"]).replace("core::", "std::").startswith("std::option::Option<roxmltree::Node<") \
+                    and not any(x.kind == "call" and (M.Body.callee_decl(x.term) or "").endswith("Iterator::next") for x in M.trace_place(B, o.place, ())):
+                # (the element of a `for` loop is not the test whether there is an extension)
+                some = [b2 for v, b2 in t["targets"] if v == 1] or ([t["otherwise"]] if [v for v, _ in t["targets"]] == [0] else [])
+                arms += some
+    oks = [i for i in sorted(B.reach) for st_ in B.blocks[i]["stmts"]
+           if st_["k"] == "assign" and st_["p"]["l"] == 0 and not st_["p"].get("proj") and st_["rv"]["k"] == "aggregate" and st_["rv"].get("variant") == "Ok"]
+    if not arms or not look_bbs:
+        ck.undecided("R1", "lookup-whenever-extension", fb["span"], f"the arm taken when an <extension> child exists / the base lookup could not be located in {ext_short}", fn="extension")
+    else:
+        early = [i for a_ in arms for i in oks if i in B.reachable_from(a_, avoid=look_bbs)]
+        if early:
+            ck.violation("R1", "lookup-whenever-extension", B.term(early[0]).get("sp") or fb["span"],
+                         f"{ext_short} can return successfully from the arm in which an <extension> child was found without looking the base type up: "
+                         f"a derived type then carries none of its base type's members", fn="extension")
+        else:
+            ck.ok("R1", "lookup-whenever-extension", fb["span"], "every successful path through the <extension> arm looks the base type up first", fn="extension")
     # read_complex_content_node: extension import before own sequence loop
     cb = F.lib.body(CC) if CC else None
     if cb is None:
